@@ -502,6 +502,115 @@ def run_nesting(case):
                            syntax=syntax), probes_added=True)
 
 
+# ---- (d) sources that change while the template renders; wrapped callables
+
+READERS = {
+    'var': '<dtml-var nn>', 'entity': '&dtml-nn;',
+    'expr': '<dtml-var "_[\'nn\']">',
+    'if': '<dtml-if nn><dtml-var nn><dtml-else>false</dtml-if>',
+    'let': '<dtml-let q=nn><dtml-var q></dtml-let>',
+    'has': '<dtml-var "_.has_key(\'nn\') and _[\'nn\']">',
+}
+BINDERS = ['client', 'client-tuple', 'with', 'in-item', 'with-in-let']
+
+
+class Late:
+    pass
+
+
+def run_late(case):
+    """['late', binder, reader1, reader2]: the highest-priority source (an
+    object) does not define the name when it is first read, so a lower
+    source answers; then the object gets the attribute (lazy loading) and
+    answers the second read."""
+    from DocumentTemplate import HTML
+    _, binder, r1, r2 = case
+    o = Late()
+
+    def load():
+        o.nn = 'S:object'
+        return ''
+    body = '%s|<dtml-var load>%s' % (READERS[r1], READERS[r2])
+    mapping = dict(nn='S:mapping', load=load, o=o, seq=[o, Late()][:1],
+                   other=Late())
+    client = None
+    if binder == 'client':
+        src, client = '[%s]' % body, o
+    elif binder == 'client-tuple':
+        src, client = '[%s]' % body, (mapping['other'], o)
+    elif binder == 'with':
+        src = '[<dtml-with o>%s</dtml-with>]' % body
+    elif binder == 'in-item':
+        src = '[<dtml-in seq>%s</dtml-in>]' % body
+    else:
+        src = '[<dtml-with o><dtml-in seq><dtml-let z=load>%s</dtml-let>' \
+              '</dtml-in></dtml-with>]' % body
+    exp = '[S:mapping|S:object]'
+    if binder == 'with-in-let':
+        exp = '[S:object|S:object]'       # the let binding loaded it
+    try:
+        out = HTML(src)(client, mapping)
+    except Exception as e:
+        out = 'raised %r' % (e,)
+    if out != exp:
+        return ('precedence:late-definition:%s' % binder,
+                '%r: the object gets the attribute between the two reads: '
+                'rendered %r, expected %r' % (src, out, exp))
+    return None
+
+
+def run_acquired(case):
+    """['acquired', where, reader]: a callable that is an acquisition
+    wrapper whose context is a template: looked up by name it is called
+    (without arguments) like any other callable."""
+    import Acquisition
+    from DocumentTemplate import HTML
+    _, where, reader = case
+
+    class Helper(Acquisition.Implicit):
+        def __call__(self, *args):
+            if args:
+                raise TypeError('called with %d arguments' % len(args))
+            return 'S:called'
+
+    class Document(Acquisition.Implicit, HTML):
+        """A document template that takes part in acquisition (as the
+        DTML documents of an application server do)."""
+    holder = Document('holder template')
+    v = Helper().__of__(holder)
+    body = READERS[reader]
+    o = Late()
+    kw, mapping, client = {}, dict(o=o), None
+    src = '[%s]' % body
+    if where == 'kw':
+        kw['nn'] = v
+    elif where == 'mapping':
+        mapping['nn'] = v
+    elif where == 'client':
+        o.nn = v
+        client = o
+    elif where == 'with':
+        o.nn = v
+        src = '[<dtml-with o>%s</dtml-with>]' % body
+    elif where == 'default':
+        pass
+    exp = '[S:called]'
+    if reader in ('expr', 'has'):
+        return None                 # expressions receive the object uncalled
+    try:
+        if where == 'default':
+            out = HTML(src, nn=v)(client, mapping)
+        else:
+            out = HTML(src)(client, mapping, **kw)
+    except Exception as e:
+        out = 'raised %r' % (e,)
+    if out != exp:
+        return ('precedence:wrapped-callable:%s' % where,
+                '%r with a wrapped callable in %s rendered %r, expected %r'
+                % (src, where, out, exp))
+    return None
+
+
 def subsets():
     for r in range(1, 7):
         for c in itertools.combinations(SOURCES, r):
@@ -513,6 +622,7 @@ def plan(tier, seed):
     for form in FORMS:
         shards.append(dict(kind='enum', form=form))
     shards.append(dict(kind='underscore'))
+    shards.append(dict(kind='late'))
     for i in range(4):
         shards.append(dict(kind='names', names=NAMES[1:][i::4]))
     kinds = sorted(BLOCKS)
@@ -540,6 +650,24 @@ def run_shard(shard):
                              distinct_by_construction=True)
                     if bad:
                         acc.fail(bad[0], case, bad[1])
+    elif shard['kind'] == 'late':
+        for binder in BINDERS:
+            for r1 in sorted(READERS):
+                for r2 in sorted(READERS):
+                    case = ['late', binder, r1, r2]
+                    bad = run_late(case)
+                    acc.case(case, True, klass='late-definition',
+                             distinct_by_construction=True)
+                    if bad:
+                        acc.fail(bad[0], case, bad[1])
+        for where in ('kw', 'mapping', 'client', 'with', 'default'):
+            for reader in sorted(READERS):
+                case = ['acquired', where, reader]
+                bad = run_acquired(case)
+                acc.case(case, True, klass='wrapped-callable',
+                         distinct_by_construction=True)
+                if bad:
+                    acc.fail(bad[0], case, bad[1])
     elif shard['kind'] == 'names':
         few = [[x] for x in SOURCES] + [list(SOURCES), list(SOURCES[2:])]
         for name in shard['names']:
@@ -616,6 +744,10 @@ def run_shard(shard):
 def replay(case):
     if isinstance(case, dict):
         b = run_random(case)
+    elif case[0] == 'late':
+        b = run_late(case)
+    elif case[0] == 'acquired':
+        b = run_acquired(case)
     elif case[0] == 'underscore':
         b = run_underscore(case[1:])
     elif case[0] == 'nesting':
